@@ -564,6 +564,20 @@ void h_hs_setfrag(void)
 	}
 	VERIF_REACH();
 }
+void h_hs_tests(void)
+{
+	hs_reset();
+	static char pattern[64];
+	size_t n = nondet_size_t();
+	__CPROVER_assume(n >= 1 && n <= 59);                      /* handshake_upenc_autodetect's test strings: at most 59 characters */
+	__CPROVER_havoc_object(pattern);
+	pattern[n] = 0; g_nul_obj = pattern; g_nul_at = n;
+	do_qtype = (unsigned short)nondet_int();
+	if (nondet_bool()) { int r = handshake_upenctest(8, pattern); __CPROVER_assert(r >= -1 && r <= 1, "upstream codec test: result -1, 0 or 1"); }
+	else if (nondet_bool()) { int r = handshake_downenctest(8, (char)nondet_int()); __CPROVER_assert(r == 0 || r == 1, "downstream codec test: result 0 or 1"); }
+	else { int r = handshake_qtypetest(8, nondet_int()); __CPROVER_assert(r == 0 || r == 1, "query type test: result 0 or 1"); }
+	VERIF_REACH();
+}
 void h_hs_raw(void)
 {
 	hs_reset();
